@@ -90,6 +90,14 @@ func witnessSource(pkgName string, have map[string]bool) string {
 		emit("Scale", t)
 	}
 	sb.WriteString("}\n")
+	// positive control of rule I0 and probes that tell the rules where a header keeps its channel count and depth
+	sb.WriteString("\nfunc verifControlNarrow(x int) uint16 { return uint16(x) }\n")
+	if have["Alloc"] {
+		sb.WriteString("func verifProbeChannels[T SignalTypes](b *Buffer[T]) int { return b.Channels() }\n")
+		sb.WriteString("func verifProbeDepth[T SignalTypes](b *Buffer[T]) BitDepth { return b.BitDepth() }\n")
+		sb.WriteString("func verifProbeIndex[T SignalTypes](b *Buffer[T], channel, idx int) int { return b.BufferIndex(channel, idx) }\n")
+		sb.WriteString("var verifProbes = []any{verifProbeChannels[int8], verifProbeDepth[int8], verifProbeIndex[int8]}\n")
+	}
 	return sb.String()
 }
 
@@ -171,6 +179,7 @@ func loadWorld(dir, arch string) (*World, error) {
 		}
 	}
 	w.Interp = newInterp(prog, w.SSA, w.Sizes)
+	discoverHeaderLayout(w)
 	return w, nil
 }
 
@@ -202,8 +211,68 @@ func (w *World) Fn(name string) *ssa.Function {
 		}
 	}
 	_ = pfx
+	// a method named through the type it used to be declared on, e.g. "(channels).BufferIndex": when that type is
+	// gone, the method a *Buffer promotes under the same name is the one meant (the anchor is the operation)
+	if i := strings.Index(name, ")."); strings.HasPrefix(name, "(") && i > 0 && !strings.Contains(name, "[") {
+		mname := name[i+2:]
+		if o := w.Pkg.Types.Scope().Lookup("Buffer"); o != nil {
+			ms := types.NewMethodSet(types.NewPointer(o.Type()))
+			for j := 0; j < ms.Len(); j++ {
+				sel := ms.At(j)
+				if sel.Obj().Name() == mname && len(sel.Index()) > 1 { // promoted through an embedded field
+					if f, ok := sel.Obj().(*types.Func); ok {
+						if fn := w.Prog.FuncValue(f); fn != nil {
+							return fn
+						}
+					}
+				}
+			}
+		}
+	}
 	return nil
 }
 
 // fnKey is the canonical name of an SSA function (type arguments comma-separated).
 func fnKey(fn *ssa.Function) string { return strings.ReplaceAll(fn.String(), " ", ",") }
+
+// discoverHeaderLayout sets hdrLayout from the loaded tree: the field that b.Channels() reads, the field that
+// b.BitDepth() reads (probe functions of the generated witness file) and the one slice-typed field of Buffer.
+func discoverHeaderLayout(w *World) {
+	h := &headerLayout{data: []string{"data"}, ch: []string{"channels"}, depth: []string{"bitDepth"}}
+	hdrLayout = h
+	if o := w.Pkg.Types.Scope().Lookup("Buffer"); o != nil {
+		if sp := slicePath(o.Type()); sp != nil {
+			h.data = sp
+		}
+	}
+	probe := func(name string) []string {
+		fn := w.Fn(name + "[int8]")
+		if fn == nil {
+			return nil
+		}
+		s := w.Interp.runQuiet(fn, nil)
+		rets := retPaths(s)
+		if len(rets) != 1 {
+			return nil
+		}
+		t := valTerm(rets[0].Ret)
+		if t == nil {
+			return nil
+		}
+		t = canon(t)
+		for t.Op == OpConv && len(t.Args) == 1 {
+			t = t.Args[0]
+		}
+		pn := paramName(fn, 0)
+		if t.Op != OpAtom || !strings.HasPrefix(t.Name, pn+".") {
+			return nil
+		}
+		return strings.Split(strings.TrimPrefix(t.Name, pn+"."), ".")
+	}
+	if p := probe("verifProbeChannels"); p != nil {
+		h.ch = p
+	}
+	if p := probe("verifProbeDepth"); p != nil {
+		h.depth = p
+	}
+}
